@@ -74,6 +74,20 @@ class GDef:
 
     def graph(self, **cfg):
         cfg.setdefault("device", "cpu")
+        # hook H4: `derived_batch` is not a constructor argument; it scales down the DEFAULT batch size (2^20), which is
+        # what graphs derived from this one (inverted copies, modified copies) are built with, so that batch boundaries
+        # inside derived graphs are crossed on small graphs too.  Stays in force until the next graph is built here.
+        derived = cfg.pop("derived_batch", None)
+        try:
+            import cayleypy.torch_utils as tu
+
+            if hasattr(tu, "VERIF_KNOBS"):
+                if derived:
+                    tu.VERIF_KNOBS["default_batch_size"] = int(derived)
+                else:
+                    tu.VERIF_KNOBS.pop("default_batch_size", None)
+        except ImportError:
+            pass
         return CayleyGraph(self.definition(), **cfg)
 
     # ---- packing (must agree with CvModel/Pack.lean)
@@ -354,7 +368,35 @@ def elementary(n, i, j, v):
     return M
 
 
+def large_modulus_mat_def(rng):
+    """Small orbits under a LARGE modulus with entries just below it: the standard representation of S_{n+1} mod m
+    (x_1 -> -(x_1 + ... + x_n) and coordinate permutations), m around 2^k for k = 8..31 — where products and row sums
+    cross the float (2^24, 2^53) and int64 boundaries while the orbit stays below (n+1)! states."""
+    n = rng.choice([2, 3, 3, 4])
+    k = rng.choice([8, 16, 24, 25, 26, 26, 26, 27, 30, 31])
+    modulo = min(2**31, rng.choice([2**k, 2**k, 2**k - 1, 2**k - 3, 2**k + 1]))
+    refl = [int(r == c) for r in range(n) for c in range(n)]
+    for c in range(n):
+        refl[c] = modulo - 1
+    shift = [int((r + 1) % n == c) for r in range(n) for c in range(n)]
+    gens = [refl, shift]
+    if rng.random() < 0.4:
+        swap = [int(r == c) for r in range(n) for c in range(n)]
+        swap[0], swap[1], swap[n], swap[n + 1] = 0, 1, 1, 0
+        gens.append(swap)
+    if rng.random() < 0.3:
+        inv_shift = [int(r == (c + 1) % n) for r in range(n) for c in range(n)]
+        gens.append(inv_shift)
+    m = rng.choice([1, 2])
+    central = [modulo - rng.choice([1, 2, 4, 3, 5, 7]) for _ in range(n * m)]
+    if rng.random() < 0.3:
+        central = [rng.randrange(modulo) for _ in range(n * m)]
+    return GDef("mat", gens, central, n=n, m=m, modulo=modulo, tag=f"mat-large-mod2^{k}")
+
+
 def gen_mat_def(rng):
+    if rng.random() < 0.2:
+        return large_modulus_mat_def(rng)
     n = rng.choice([2, 2, 3])
     modulo = rng.choice([2, 3, 3, 4, 5, 7, 0])
     k = rng.randint(1, 3)
@@ -406,6 +448,8 @@ def gen_cfg(rng, gd):
     cfg["batch_size"] = rng.choice([1, 2, 3, 7, 50, 2**20])
     cfg["hash_chunk_size"] = rng.choice([1, 2, 5, 100, 2**25])
     cfg["random_seed"] = rng.choice([None, 0, 1, 42, 123456789, -7])
+    cfg["verbose"] = rng.choice([0, 0, 0, 1, 2, 3])  # logging level: must not change any result
+    cfg["derived_batch"] = rng.choice([None, None, 1, 2, 3, 7])  # hook H4, see GDef.graph
     return cfg
 
 
